@@ -37,8 +37,10 @@ pub fn classify_gap(ls: &LangSet, code: &str, toks: &[IdTok]) -> Gap {
         if t.text.chars().any(|c| c.is_alphabetic()) {
             if api.is_decimal_sep(lower) {
                 amb = true; // swallowed after a number, a breaker otherwise: the statement does not settle it
-            } else if lower == conj || api.is_linking(lower) {
-                // linking word
+            } else if api.is_linking(lower) || (lower == conj && !t.nan) {
+                // linking word, or the conjunction (swallowed by the number grammar or listed as linking)
+            } else if lower == conj {
+                amb = true; // a conjunction flagged "not a number part" that the language does not list as linking
             } else {
                 return Gap::Hard;
             }
@@ -189,7 +191,14 @@ pub fn run(ctx: &Ctx) -> Outcome {
             let lex = ls.lexicon(code);
             // two thirds: lower-case, no hints -> policy model applies; one third hostile (hints, case): universal laws only
             let model = i % 3 != 0;
-            let opts = if model { StreamOpts { ws_tokens: i % 2 == 0, ..StreamOpts::plain(12) } } else { StreamOpts::hinted(12) };
+            // model streams: lower-case; a third of them carry not-a-number / separation hints (a hinted token is
+            // classified by its text exactly like an unhinted one: the hint ends a number, it does not change what
+            // breaks a sequence)
+            let opts = if model {
+                StreamOpts { ws_tokens: i % 2 == 0, nan_permille: if i % 9 < 3 { 120 } else { 0 }, sep_permille: if i % 9 == 1 { 80 } else { 0 }, ..StreamOpts::plain(12) }
+            } else {
+                StreamOpts::hinted(12)
+            };
             let toks = gen_stream(&mut rng, lex, &opts);
             crate::core::set_current(code, "find_numbers at several thresholds", &streams::show_stream(&toks));
             let v = check_stream(&ls, code, &toks, model);
